@@ -328,6 +328,7 @@ def self_test(ctx, raw, findings, kind):
         units.append(cur)
     done = []
     mutations = 0
+    rejected_by = {}
     for u in units:
         head = json.loads(u[0])
         if head["id"] in bad_ids or len(u) < 4:
@@ -342,51 +343,59 @@ def self_test(ctx, raw, findings, kind):
         if target is None:
             continue
         variants = []
-        # (1) one value of the decoded mesh
+        # (1) one value of the decoded mesh, at a vertex a primitive refers to, in every attribute
         v1 = json.loads(json.dumps(lines))
-        cell = v1[target]["mesh"]["attrs"][0]["data"][0][0]
-        if isinstance(cell, list):
-            cell[3] = (cell[3] + 1) % 65536
-        else:
-            v1[target]["mesh"]["attrs"][0]["data"][0][0] = cell + 1
-        variants.append(("mesh-value", v1, "C04.RoundTrip" if kind == "rt" else "C08.Denote"))
+        vert = v1[target]["mesh"]["idx"][0]
+        for a in v1[target]["mesh"]["attrs"]:
+            cell = a["data"][vert][0]
+            if isinstance(cell, list):
+                cell[1] = (cell[1] + 1) % 65536
+            else:
+                a["data"][vert][0] = cell + 5000
+        variants.append(("mesh-value", v1))
         # (2) the decoded index list (vertex numbering / corner order)
         v2 = json.loads(json.dumps(lines))
         idx = v2[target]["mesh"]["idx"]
         if len(idx) >= 2 and idx[0] != idx[1]:
             idx[0], idx[1] = idx[1], idx[0]
-            variants.append(("mesh-idx", v2, "C04.ReadsFile" if kind == "rt" else "C08.Denote"))
+            variants.append(("mesh-idx", v2))
         if kind == "rt":
             # (3) a byte the parser did not account for
             v3 = json.loads(json.dumps(lines))
             v3[target]["file"]["left"] = 1
-            variants.append(("file-left", v3, "C04.WellFormedFile"))
+            variants.append(("file-left", v3))
             # (4) a cell of the parsed file
             v4 = json.loads(json.dumps(lines))
             if v4[target]["file"]["vrecs"] and v4[target]["file"]["vrecs"][0]:
                 c0 = v4[target]["file"]["vrecs"][0][0]
                 if isinstance(c0, list):
-                    c0[0] = (c0[0] + 1) % 65536
+                    c0[1] = (c0[1] + 1) % 65536
                 else:
                     v4[target]["file"]["vrecs"][0][0] = c0 + (1 if c0 < 255 else -1)
-                variants.append(("file-cell", v4, "C04.ReadsFile"))
-        for what, lines2, want in variants:
+                variants.append(("file-cell", v4))
+            # (5) the header ply.ReadHeader returned
+            v5 = json.loads(json.dumps(lines))
+            v5[target]["hdr"]["elems"][0]["n"] += 1
+            variants.append(("hdr-count", v5))
+        for what, lines2 in variants:
             d = ctx.scratch("selftest-%d-%s" % (len(done), what))
             with open(os.path.join(d, "trace.ndjson"), "w") as f:
                 for x in lines2:
                     f.write(json.dumps(x, separators=(",", ":")) + "\n")
             r = core.run_tlc(d, "TracePly", "TracePly.cfg", timeout=600, heap="2g")
-            preds = {b["p"] for v in r.values if isinstance(v, dict) and "bad" in v for b in v["bad"]}
+            preds = sorted({b["p"] for v in r.values if isinstance(v, dict) and "bad" in v for b in v["bad"]})
             mutations += 1
-            if want not in preds:
+            if not any(p.startswith(("C04." if kind == "rt" else "C08.")) for p in preds):
                 raise core.Infra("binding self-test: corrupted field %s of an accepted trace (case %d) was not rejected "
-                                 "with %s (got %s)" % (what, head["id"], want, sorted(preds)))
+                                 "(got %s)" % (what, head["id"], preds))
+            rejected_by.setdefault(what, set()).update(preds)
         done.append(head["id"])
         if len(done) >= 3:
             break
     if not done:
         raise core.Infra("binding self-test found no accepted case to corrupt")
     ctx.extra["selftest_corruptions_rejected"] = mutations
+    ctx.extra["selftest_rejected_by"] = {k: sorted(v) for k, v in rejected_by.items()}
 
 
 # --------------------------------------------------------------------------
@@ -440,7 +449,7 @@ def run_family(ctx, prop):
         ctx.violation(sig, what, {"family": "ply", "case": strip(c), "fmt": f["fmt"]})
     ctx.extra["flags_for_other_properties"] = other
     ctx.extra["rejections_per_signature"] = per_sig
-    if ctx.tier == "thorough":
+    if ctx.tier == "thorough" or os.environ.get("VERIF_SELFTEST") == "1":
         self_test(ctx, raw, findings, kind)
     ctx.assumptions += [
         "the reference encoder/parser harness/plyref follows the PLY format description (its own round trip is checked: Harness.Refenc)",
